@@ -110,7 +110,7 @@ class _FuseMinMaxBase(RewriteRuleClassBase, abc.ABC):
 
             # If scalars are required (Clip fusion), enforce scalar-ness
             if self.need_scalars:
-                value = input_.const_value.numpy()
+                value = ir.convenience.get_const_tensor(input_).numpy()
                 if not self._is_scalar(value):
                     return check_result.fail(f"{input_.name} is not a scalar.")
                 # Min/Max broadcast: a size-1 bound of higher rank than X raises the rank of
@@ -146,7 +146,7 @@ class FuseSuccessiveMin(_FuseMinMaxBase):
         input_name: str = "",
     ) -> list[tuple[ir.Tensor, str]]:
         inputs = first_node.inputs[1:] + second_node.inputs[1:]
-        values = [input_.const_value.numpy() for input_ in inputs]
+        values = [ir.convenience.get_const_tensor(input_).numpy() for input_ in inputs]
         return [(ir.tensor(functools.reduce(np.minimum, values)), f"{input_name}_min")]
 
     def pattern(self, op, x):
@@ -173,7 +173,7 @@ class FuseSuccessiveMax(_FuseMinMaxBase):
         input_name: str = "",
     ) -> list[tuple[ir.Tensor, str]]:
         inputs = first_node.inputs[1:] + second_node.inputs[1:]
-        values = [input_.const_value.numpy() for input_ in inputs]
+        values = [ir.convenience.get_const_tensor(input_).numpy() for input_ in inputs]
         return [(ir.tensor(functools.reduce(np.maximum, values)), f"{input_name}_max")]
 
     def pattern(self, op, x):
@@ -205,10 +205,10 @@ class FuseMaxMinToClip(_FuseMinMaxBase):
     ) -> list[tuple[ir.Tensor, str]]:
         # reshape(()): bounds of different shapes ([] and [1]) cannot be stacked by np.max/np.min
         lower_bound = np.max(
-            [input_.const_value.numpy().reshape(()) for input_ in first_node.inputs[1:]]
+            [ir.convenience.get_const_tensor(input_).numpy().reshape(()) for input_ in first_node.inputs[1:]]
         )
         upper_bound = np.min(
-            [input_.const_value.numpy().reshape(()) for input_ in second_node.inputs[1:]]
+            [ir.convenience.get_const_tensor(input_).numpy().reshape(()) for input_ in second_node.inputs[1:]]
         )
         return [
             (ir.tensor(lower_bound), f"{input_name}_min"),
@@ -245,10 +245,10 @@ class FuseMinMaxToClip(_FuseMinMaxBase):
         input_name: str = "",
     ) -> list[tuple[ir.Tensor, str]]:
         upper_bound = np.min(
-            [input_.const_value.numpy().reshape(()) for input_ in first_node.inputs[1:]]
+            [ir.convenience.get_const_tensor(input_).numpy().reshape(()) for input_ in first_node.inputs[1:]]
         )
         lower_bound = np.max(
-            [input_.const_value.numpy().reshape(()) for input_ in second_node.inputs[1:]]
+            [ir.convenience.get_const_tensor(input_).numpy().reshape(()) for input_ in second_node.inputs[1:]]
         )
         return [
             (ir.tensor(lower_bound), f"{input_name}_min"),
